@@ -152,6 +152,14 @@ pub fn main(args: &[String]) {
             }
             let s = st.borrow(); n_at += s.n_at; n_dang += s.n_dangling; n_calls += s.n_calls; n_early += s.n_early;
         }
+        // builder use AFTER the GC pass: a function is built for every signature the input declared (the pass may have collected
+        // some of them; adding a signature again must give a live type) and the module must still emit and validate
+        {   let sigs: Vec<(Vec<ValType>, Vec<ValType>)> = match mcfg.parse(&wasm) { Ok(m0) => m0.types.iter().map(|t| (t.params().to_vec(), t.results().to_vec())).collect(), Err(_) => vec![] };
+            let r2 = catch(|| { let mut m2 = mcfg.parse(&wasm).ok()?; passes::gc::run(&mut m2);
+                for (k, (ps, rs)) in sigs.iter().enumerate() { let mut fb = FunctionBuilder::new(&mut m2.types, ps, rs); fb.func_body().unreachable(); let args: Vec<LocalId> = ps.iter().map(|t| m2.locals.add(*t)).collect(); let f = fb.finish(args, &mut m2.funcs); m2.exports.add(&format!("after_gc{}", k), f); }
+                Some(m2.emit_wasm()) });
+            match r2 { Some(Some(o)) => if let Err(e) = amod::validate(&o, feats) { viol.push(Json::obj(vec![("class", Json::s("output-invalid-after-gc-then-build")), ("props", Json::s("C15 C02")), ("what", Json::s(format!("functions built after the GC pass: the module does not validate: {}", e))), ("input", Json::s(crate::c03::hex(&wasm)))])); },
+                Some(None) => {}, None => viol.push(Json::obj(vec![("class", Json::s("emit-panics-after-gc-then-build")), ("props", Json::s("C15 C02")), ("what", Json::s("gc, then FunctionBuilder::new for every signature of the input, then emit_wasm: panics")), ("input", Json::s(crate::c03::hex(&wasm)))])) } }
         let obs = match catch(|| observe_module(module)) { Some(Ok(o)) => o, Some(Err(e)) => { viol.push(Json::obj(vec![("class", Json::s("emit-fails-after-build")), ("props", Json::s("C15 C02")), ("what", Json::s(e)), ("input", Json::s(crate::c03::hex(&wasm)))])); continue; }
             None => { viol.push(Json::obj(vec![("class", Json::s("emit-panics-after-build")), ("props", Json::s("C15 C02")), ("what", Json::s("emit_wasm panics after functions were built with the builder API")), ("input", Json::s(crate::c03::hex(&wasm)))])); continue; } };
         if let Err(e) = amod::validate(&obs.out, feats) { viol.push(Json::obj(vec![("class", Json::s("output-invalid-after-build")), ("props", Json::s("C15 C02")), ("what", Json::s(format!("module with builder-made functions does not validate: {}", e))), ("input", Json::s(crate::c03::hex(&wasm)))])); }
